@@ -58,6 +58,47 @@ GRAMMAR_IMMUT = "Top: Val | Model;\n" + GRAMMAR
 KIND = {"conv": 0, "pre": 1, "resolve": 2, "init": 3, "oproc": 4, "mproc": 5}
 KIND_NAME = {v: k for k, v in KIND.items()}
 RAISING = ("exc", "type", "unknown")
+# Truthiness of user class objects (class trait `falsy`): a user class may define __bool__ / __len__, its objects may be
+# falsy while the model is built and afterwards.  "bool": __bool__ -> False; "len": __len__ -> 0 (no __bool__);
+# "dyn": __bool__ decided from the object's last grammar attribute, read through the (instrumented) attribute access
+# (an empty Box / Model, an Item without value, a Ref without `more` is falsy; unreadable -> falsy)
+FALSY = ["bool", "len", "dyn"]
+# Equality of user class objects (class trait `eq`): "name": value equality by `name` and no __hash__ (the objects
+# are unhashable, like those of an eq-dataclass)
+EQS = ["name"]
+# What the match-rule processor of the root alternative `Val` returns (an immutable-model file, `convty`): the model
+# of such a load is that value.  The primitive python types, `None` (textX keeps the matched str), immutable
+# non-primitive values, falsy ones of either kind, and builtin containers (mutable and unhashable, but textX cannot
+# store its `_tx_*` attributes on them either: same path).
+CONV_TYPES = ["int", "str", "float", "bool", "none", "tuple", "frozenset", "decimal", "date", "bytes", "complex",
+              "fraction", "range", "namedtuple", "empty_tuple", "false", "zero_float", "empty_frozenset", "zero_decimal",
+              "list", "dict"]
+PRIMITIVE_CONV = ("int", "str", "float", "bool", "none", "false", "zero_float")
+
+
+def conv_value(ty, n):
+    """the python value a top-level `Val` processor returns for the matched number n"""
+    import collections
+    import datetime
+    import decimal
+    import fractions
+
+    if ty == "namedtuple":
+        return collections.namedtuple("Pair", "x y")(n, n + 1)
+    return {
+        "int": lambda: n, "str": lambda: f"v{n}", "float": lambda: n + 0.5, "bool": lambda: True, "none": lambda: None,
+        "tuple": lambda: (n, n + 1), "frozenset": lambda: frozenset([n]), "decimal": lambda: decimal.Decimal(n),
+        "date": lambda: datetime.date(2000, 1, 1) + datetime.timedelta(days=n), "bytes": lambda: str(n).encode(),
+        "complex": lambda: complex(n, 1), "fraction": lambda: fractions.Fraction(n, 7), "range": lambda: range(n),
+        "empty_tuple": lambda: (), "false": lambda: False, "zero_float": lambda: 0.0,
+        "empty_frozenset": lambda: frozenset(), "zero_decimal": lambda: decimal.Decimal(0),
+        "list": lambda: [n], "dict": lambda: {"v": n},
+    }[ty]()
+
+
+def is_tx_obj(model):
+    """a textX object (of a user or a generated class), not a match-rule value"""
+    return hasattr(type(model), "_tx_attrs")
 
 
 class HookError(Exception):
@@ -338,9 +379,10 @@ def stores_before_init(obs):
 # --------------------------------------------------------------------------
 # user classes
 # --------------------------------------------------------------------------
-def make_class(rule, variant, on_init, is_root):
+def make_class(rule, variant, on_init, is_root, falsy=None, eq=None):
     """A fresh user class for `rule`.  `on_init(self, kwargs)` is the scripted
-    constructor body (logs, nested loads, raise)."""
+    constructor body (logs, nested loads, raise).  `falsy` / `eq`: the class defines __bool__ / __len__ / __eq__
+    (see FALSY, EQS); both are part of the class before loading starts."""
     attrs = list(RULE_ATTRS[rule]) + ([] if is_root else ["parent"])
     counters = {"setattr": 0, "getattribute": 0, "delattr": 0, "getattr": 0}
 
@@ -424,6 +466,28 @@ def make_class(rule, variant, on_init, is_root):
     C.__name__ = rule
     C.__qualname__ = rule
     C._verif_counters = counters
+    last = RULE_ATTRS[rule][-1]
+    if falsy == "bool":
+        C.__bool__ = lambda self: False
+    elif falsy == "len":
+        C.__len__ = lambda self: 0
+    elif falsy == "dyn":
+        def __bool__(self):
+            try:
+                return bool(getattr(self, last))
+            except AttributeError:
+                return False
+
+        C.__bool__ = __bool__
+    if eq == "name":
+        def __eq__(self, other):
+            try:
+                return type(other) is type(self) and other.name == self.name
+            except AttributeError:
+                return NotImplemented
+
+        C.__eq__ = __eq__
+        C.__hash__ = None
     return C
 
 
@@ -466,6 +530,7 @@ class Runner:
         self.res_seen = set()
         self.more_pos = {}
         self.mm_stack = []
+        self.load_stack = []  # files whose load is in progress (outermost first)
         self.keep = []  # models of finished loads (kept alive so ids stay unique)
         self.idmap = {}
         for n0 in list(case["loads"]):
@@ -502,10 +567,12 @@ class Runner:
         for cid in spec["classes"]:
             c = self.case["classes"][cid]
             if fresh_classes:
-                classes.append(make_class(c["rule"], c["variant"], self.on_init, c["rule"] == "Model"))
+                classes.append(make_class(c["rule"], c["variant"], self.on_init, c["rule"] == "Model",
+                                          c.get("falsy"), c.get("eq")))
                 continue
             if self.classes[cid] is None:
-                self.classes[cid] = make_class(c["rule"], c["variant"], self.on_init, c["rule"] == "Model")
+                self.classes[cid] = make_class(c["rule"], c["variant"], self.on_init, c["rule"] == "Model",
+                                               c.get("falsy"), c.get("eq"))
             classes.append(self.classes[cid])
         kwargs = {}
         if spec.get("grepo"):
@@ -624,6 +691,9 @@ class Runner:
         ent = self.labtab.get(int(text))
         if ent is not None:
             self.run_hook("conv", ent[0], ent[1]["h"])
+            if ent[0].get("immut"):
+                # the value is the model of this load
+                return conv_value(ent[0].get("convty", "int"), int(text))
         return int(text)
 
     def on_resolve(self, obj, attr, ref):
@@ -678,10 +748,15 @@ class Runner:
         return None
 
     def on_mproc(self, model, mm):
-        lab = int(model) if isinstance(model, int) else int(model.name[1:])
-        ent = self.labtab.get(lab)
+        if not is_tx_obj(model):
+            # a match-rule value: the model of the load in progress (such a model is never imported)
+            node = self.load_stack[-1]
+            if node.get("immut"):
+                self.run_hook("mproc", node, node["mproc"], None)
+            return
+        ent = self.labtab.get(int(model.name[1:]))
         if ent is not None:
-            self.run_hook("mproc", ent[0], ent[0]["mproc"], None if isinstance(model, int) else model)
+            self.run_hook("mproc", ent[0], ent[0]["mproc"], model)
 
     # -- loads ----------------------------------------------------------------
     def run_load(self, node, mm=None):
@@ -689,14 +764,16 @@ class Runner:
         cb = None
         if node.get("pre") is not None:
             def cb(model, node=node):
-                self.run_hook("pre", node, node["pre"], None if isinstance(model, int) else model)
+                self.run_hook("pre", node, node["pre"], model if is_tx_obj(model) else None)
         with open(self.path(node)) as f:
             text = f.read()
         self.mm_stack.append(mm)
+        self.load_stack.append(node)
         try:
             model = mm.model_from_str(text, file_name=self.path(node), pre_ref_resolution_callback=cb)
         finally:
             self.mm_stack.pop()
+            self.load_stack.pop()
         self.keep.append(model)
         self.map_ids(model)
         return model
@@ -707,7 +784,7 @@ class Runner:
         if hasattr(model, "_tx_model_repository"):
             models += [m for m in model._tx_model_repository.all_models if m is not model]
         for m in models:
-            if not hasattr(type(m), "_tx_attrs"):
+            if not is_tx_obj(m):
                 continue
             stack = [m]
             while stack:
@@ -1167,7 +1244,21 @@ def gen_case(rng, fault_index=None, multi=None):
     stream: the trees of a seed do not depend on them)."""
     case = gen_case0(rng, fault_index, multi)
     add_anns(case, rng.fork("ann"))
+    add_traits(case, rng.fork("traits"))
     return case
+
+
+def add_traits(case, rng):
+    """Special methods of the user classes textX's own code may trip over (truthiness, equality / hashability) and the
+    python type of an immutable model; separate random stream, assigned after everything else."""
+    for c in case["classes"]:
+        if rng.chance(0.3):
+            c["falsy"] = rng.choice(FALSY)
+        if rng.chance(0.15):
+            c["eq"] = rng.choice(EQS)
+    for n0 in case["loads"]:
+        if n0.get("immut"):
+            n0["convty"] = rng.choice(CONV_TYPES)
 
 
 def gen_case0(rng, fault_index=None, multi=None):
@@ -1237,6 +1328,12 @@ def shrink_case(case):
         for cid, c in enumerate(case["classes"]):
             if c["variant"] != "plain":
                 yield ("plain", cid)
+            for t in ("falsy", "eq"):
+                if c.get(t):
+                    yield ("notrait", cid, t)
+        for li, n0 in enumerate(case["loads"]):
+            if n0.get("immut") and n0.get("convty", "int") != "int":
+                yield ("convint", li)
         for mi, mm in enumerate(case["mms"]):
             for cid in mm["classes"]:
                 yield ("nocls", mi, cid)
@@ -1314,6 +1411,12 @@ def shrink_case(case):
                     ok = ok or nonlocal_ok[0]
         elif v[0] == "plain":
             c2["classes"][v[1]]["variant"] = "plain"
+            ok = True
+        elif v[0] == "notrait":
+            del c2["classes"][v[1]][v[2]]
+            ok = True
+        elif v[0] == "convint":
+            c2["loads"][v[1]]["convty"] = "int"
             ok = True
         elif v[0] == "nocls":
             c2["mms"][v[1]]["classes"] = [c for c in c2["mms"][v[1]]["classes"] if c != v[2]]
